@@ -105,10 +105,7 @@ func e37Expect(cfg rspCfg, st *e37State, f PFrame) (wire []string, deliv []strin
 		if cfg.validate && !isS9F1 && f.Session() != cfg.session {
 			return []string{fmt.Sprintf("S9:%d:%s", cfg.session, hex.EncodeToString(f.H[:]))}, nil, false
 		}
-		if f.B2()&0x80 == 0 && f.B3()%2 == 0 && hit {
-			st.openSel, st.up, st.selected = nil, false, false
-			return nil, nil, true
-		}
+		// a data secondary never completes a CONTROL transaction (kind-aware reply registry): delivered
 		return nil, []string{fmt.Sprintf("D:%s:%d", hex.EncodeToString(f.H[:]), len(f.Body))}, false
 	case 1:
 		if st.selected {
@@ -535,7 +532,7 @@ func waitSelectedReports(ep *Endpoint, n int, timeout time.Duration) bool {
 // without giving the supervisor goroutine time to consume the first commit's event. E37: replies 0, 0, 0 and
 // the session ends up Selected (variant A); Select+Deselect alone ends NotSelected (variant B).
 func c08PipelinedDeselect(c *Ctx) {
-	n := c.Pick(120, 1500)
+	n := c.Pick(80, 1500)
 	type res struct {
 		variant string
 		wire    []string
@@ -838,6 +835,7 @@ func c08Fixed(cfg rspCfg) [][]rspOp {
 }
 
 func runC08(c *Ctx) {
+	c08Timers(c)
 	c08PipelinedDeselect(c)
 	type job struct {
 		cfg rspCfg
@@ -863,7 +861,23 @@ func runC08(c *Ctx) {
 			}
 		}
 	}
-	for i := 0; i < c.Pick(360, 6000); i++ {
+	// active role, transactions of different KINDS sharing system bytes: a data secondary carrying the system bytes
+	// of the still-open Select.req is NOT its reply (delivered, link kept); the Select.rsp that follows still is
+	for _, validate := range []bool{false, true} {
+		cfg := rspCfg{true, validate, false, 0xFFFF}
+		jobs = append(jobs, job{cfg, rand.New(rand.NewPCG(c.Seed, uint64(len(jobs)))), func(sel uint32) []rspOp {
+			ops := []rspOp{
+				{f: mkFrame(0xFFFF, 0, 0, 0, 1, sysOf(0x51000001), nil)},
+				{f: mkFrame(0xFFFF, 1, 2, 0, 0, sysOf(sel), []byte{0x41, 1, 0x58})},
+				{f: mkFrame(0xFFFF, 0, 1, 0, 2, sysOf(sel), nil)},
+				{f: mkFrame(0xFFFF, 1, 4, 0, 0, sysOf(sel), nil)},
+				{f: mkFrame(0xFFFF, 0, 0, 0, 6, sysOf(sel), nil), pause: true},
+			}
+			st := e37State{up: true, openSel: &sel}
+			return annotate(cfg, ops, st)
+		}})
+	}
+	for i := 0; i < c.Pick(300, 6000); i++ {
 		cfg := rspCfg{c.Rng.IntN(2) == 0, c.Rng.IntN(2) == 0, c.Rng.IntN(2) == 0, sessions[c.Rng.IntN(len(sessions))]}
 		n := 1 + c.Rng.IntN(maxLen)
 		jr := rand.New(rand.NewPCG(c.Seed, uint64(len(jobs))))
